@@ -189,3 +189,62 @@ fcontract('Pointer', '_build', [
     Case('ok', 'return', lambda pre: _ptr_bsub(pre).ok, ensures=_ptr_build_ok, rkind=rk_dyn, modifies=['stream']),
     Case('inner-fails', 'raise', lambda pre: t.not_(_ptr_bsub(pre).ok), ensures=generic_raise, modifies=['stream']),
 ], tags=('C09', 'C08'), sequential_build=False)
+
+
+# ------------------------------------------------------------------------------------------------ Checksum (C14)
+def _digest(pre):
+    """hashfunc(bytesfunc(context)): both are user callbacks (total pure functions, E5); the digest is named through them"""
+    c = pre.obj('context').addr
+    inner = t.app('fn_val', t.VAL, pre.self.fields['bytesfunc'].ident, t.app('VRef', t.VAL, c))
+    return t.app('fn_val', t.VAL, pre.self.fields['hashfunc'].ident, inner)
+
+
+def _ck_bsub(pre):
+    return Sub(pre, 'checksumfield', obj=_digest(pre), kind='build')
+
+
+def _ck_build_ok(pre, post):
+    o, o2 = S_(pre), post.obj('stream')
+    s = _ck_bsub(pre)
+    return [('writes-the-encoding-of-the-COMPUTED-digest-whatever-value-was-supplied', t.eq(o2.pos, t.add(o.pos, s.len)), ('C14',)),
+            _written(o, o2, s.len, lambda i: t.select(s.bytes, i), 'emits-exactly-the-checksum-fields-encoding-of-the-digest'),
+            ('returns-the-computed-digest', result_is(post, _digest(pre)), ('C14',))]
+
+
+fcontract('Checksum', '_build', [
+    Case('ok', 'return', lambda pre: _ck_bsub(pre).ok, ensures=_ck_build_ok, rkind=rk_dyn, modifies=['stream']),
+    Case('field-fails', 'raise', lambda pre: t.not_(_ck_bsub(pre).ok), ensures=generic_raise, modifies=['stream']),
+], tags=('C14',))
+
+
+def _ck_psub(pre):
+    return Sub(pre, 'checksumfield')
+
+
+def _ck_match(pre):
+    s = _ck_psub(pre)
+    return t.app('pyeq', t.BOOL, s.val, _digest(pre))
+
+
+def _ck_parse_ok(pre, post):
+    o2 = post.obj('stream')
+    s = _ck_psub(pre)
+    return [('returns-the-stored-checksum-which-equals-the-computed-digest', result_is(post, s.val), ('C14',)),
+            ('consumes-the-checksum-field', t.eq(o2.pos, s.end), ('C14',)),
+            ('buffer-unchanged', buffer_same(pre, post), ('C17',))]
+
+
+def _ck_parse_bad(pre, post):
+    s = _ck_psub(pre)
+    return [('a-stored-checksum-different-from-the-computed-digest-is-ChecksumError', t.implies(t.and_(s.ok, t.not_(_ck_match(pre))), exc_is(post, 'ChecksumError')), ('C14', 'C13'))] + generic_raise(pre, post)
+
+
+fcontract('Checksum', '_parse', [
+    Case('ok', 'return', lambda pre: t.and_(_ck_psub(pre).ok, _ck_match(pre)), ensures=_ck_parse_ok, rkind=rk_dyn, modifies=['stream']),
+    Case('mismatch-or-field-fails', 'raise', lambda pre: t.not_(t.and_(_ck_psub(pre).ok, _ck_match(pre))), ensures=_ck_parse_bad, modifies=['stream']),
+], tags=('C14', 'C13'))
+fcontract('Checksum', '_sizeof', [
+    Case('ok', 'return', lambda pre: Sub(pre, 'checksumfield', kind='sizeof').ok,
+         ensures=lambda pre, post: [('size-is-the-checksum-fields-size', size_is(post, Sub(pre, 'checksumfield', kind='sizeof').val), ('C05',))], rkind=rk_dyn),
+    Case('no-size', 'raise', lambda pre: t.not_(Sub(pre, 'checksumfield', kind='sizeof').ok)),
+], tags=('C05',))
